@@ -327,6 +327,12 @@ func GetTokenIDAndSubjectFromToken(
 		if err != nil {
 			break
 		}
+		if idTokenClaims.AuthorizedParty == "" {
+			// Not an ID token of this provider (every ID token it issues carries azp), notably one of its
+			// JWT access tokens: same issuer and key, but its liveness (expiry in the storage, revocation)
+			// can only be vetted when it is presented as access_token.
+			break
+		}
 
 		tokenIDOrToken, subject, claims, ok = token, idTokenClaims.Subject, idTokenClaims.Claims, true
 	}
